@@ -36,8 +36,19 @@ class SafeExpatParser(expatreader.ExpatParser):  # type: ignore[misc, unused-ign
             f"External references are forbidden (system_id={sysid!r}, public_id={pubid!r})"
         )  # pragma: no cover
 
+    in_doctype = False
+
+    def start_doctype_declaration(self, name, sysid, pubid, has_internal_subset):  # type: ignore
+        self.in_doctype = True
+
+    def end_doctype_declaration(self) -> None:
+        self.in_doctype = False
+
     def reset(self) -> None:
         super().reset()
+        self.in_doctype = False
+        self._parser.StartDoctypeDeclHandler = self.start_doctype_declaration
+        self._parser.EndDoctypeDeclHandler = self.end_doctype_declaration
         self._parser.EntityDeclHandler = self.forbid_entity_declaration
         self._parser.UnparsedEntityDeclHandler = self.forbid_unparsed_entity_declaration
         self._parser.ExternalEntityRefHandler = self.forbid_external_entity_reference
@@ -83,7 +94,10 @@ def defuse_xml(fp: IOType, rewind: bool = True) -> IOType:
             if event == pulldom.START_ELEMENT:
                 break
     except SAXParseException:
-        pass  # the purpose is to defuse not to check xml source syntax
+        # the purpose is to defuse not to check xml source syntax, but a DTD that
+        # can't be read to its end can't be said to be free of entity declarations
+        if parser.in_doctype:
+            raise XMLResourceForbidden("Malformed DTD: can't defuse the XML source")
     except OSError as err:
         raise XMLResourceOSError(err)
 
